@@ -114,6 +114,49 @@ func pruneTables(db objects.Store, survivingCommits [][]byte, allBlockKeys, allB
 	}
 }
 
+// childrenFirst orders commits so that each one comes before its parents. Deleting
+// in that order means an interrupted prune never leaves a stored commit whose
+// parent is already gone.
+func childrenFirst(db objects.Store, sums [][]byte) [][]byte {
+	toRemove := map[string]struct{}{}
+	for _, sum := range sums {
+		toRemove[string(sum)] = struct{}{}
+	}
+	pendingChildren := map[string]int{}
+	parents := map[string][][]byte{}
+	for _, sum := range sums {
+		com, err := objects.GetCommit(db, sum)
+		if err != nil {
+			continue
+		}
+		for _, p := range com.Parents {
+			if _, ok := toRemove[string(p)]; ok {
+				pendingChildren[string(p)]++
+				parents[string(sum)] = append(parents[string(sum)], p)
+			}
+		}
+	}
+	result := make([][]byte, 0, len(sums))
+	queue := [][]byte{}
+	for _, sum := range sums {
+		if pendingChildren[string(sum)] == 0 {
+			queue = append(queue, sum)
+		}
+	}
+	for len(queue) > 0 {
+		sum := queue[0]
+		queue = queue[1:]
+		result = append(result, sum)
+		for _, p := range parents[string(sum)] {
+			pendingChildren[string(p)]--
+			if pendingChildren[string(p)] == 0 {
+				queue = append(queue, p)
+			}
+		}
+	}
+	return result
+}
+
 type PruneOptions struct {
 	FindCommitsPbar       func() pbar.Bar
 	PruneTablesPbar       func() pbar.Bar
@@ -198,7 +241,7 @@ func Prune(db objects.Store, rs ref.Store, opts *PruneOptions) (err error) {
 
 	// remove orphaned commits
 	return runWithPbar(opts.PruneCommitsPbar, func(pbarAdd func()) (err error) {
-		for _, sum := range commitsToRemove {
+		for _, sum := range childrenFirst(db, commitsToRemove) {
 			err = objects.DeleteCommit(db, sum)
 			if err != nil {
 				return err
